@@ -679,6 +679,15 @@ def _attr_alias_pass(fn):
 def _alias_region_clean(rest, t, attr):
     """walk the statements after the binding in evaluation order until the last use of t; nothing effectful before that point except calls that
     take t as callee / receiver / argument (t is read before they run)"""
+    # a use inside a loop, or inside a `with` block (entering a context manager may await or call anything), that starts after the binding
+    # can be evaluated after arbitrary effects
+    def nested_use(n, under):
+        if isinstance(n, ast.Name) and n.id == t and isinstance(n.ctx, ast.Load) and under:
+            return True
+        u2 = under or isinstance(n, (ast.For, ast.AsyncFor, ast.While, ast.With, ast.AsyncWith))
+        return any(nested_use(ch, u2) for ch in ast.iter_child_nodes(n))
+    if any(nested_use(r, False) for r in rest):
+        return False
     last = None
     order = []
     def visit(n):
